@@ -125,6 +125,18 @@ def is_batch_publish(facts, c):
     return c.fn != APPEND and c.fn in publisher_names(facts)
 
 
+def delegates_of(facts, fn):
+    """Functions whose body was looked through at `fn` (spliced there) and that stay visible because they are public / have other
+    callers: `read_sync(a, b, c)` = `read_sync_topic(a, b, c, None)`.  What holds for fn's spliced body holds for them."""
+    out = []
+    for (a, h) in getattr(facts, "inlined", []) or []:
+        if (a == fn or a.startswith(fn + "::{")) and "{closure" not in h and h not in out:
+            hb = facts.body(h)
+            if hb is not None and not getattr(hb, "hidden", False):
+                out.append(h)
+    return tuple(out)
+
+
 def insert_wrappers(facts):
     """Store methods that hand their own `&Frame` parameter on to Store::insert_frame (e.g. a `Store::import_frame(&self, &Frame)`
     that looks at what is stored first): for the who-may-insert and keep-ephemeral-out rules the obligation lies with THEIR
